@@ -192,8 +192,12 @@ TypeOK == phase \in {"new", "pull", "done"} /\ n \in 0..(MaxLen + 3) /\ out.t \i
 
 \* ---- export: one record per case ----
 MinOf2(a, b) == IF a < b THEN a ELSE b
+\* What a program can see of the pulls: an iterator class sees every __next__ call; a generator body is resumed
+\* once per call until it has ended (a call on an exhausted generator runs nothing, PyGen!DoneAbsorbing);
+\* of a builtin iterator only the unconsumed rest is visible.
+Observable(p, k) == IF p.kind \in {"gen", "able"} THEN MinOf2(k, Len(p.items) + 1) ELSE k
 Emit == phase = "done" =>
    PrintT(ToJson([rec |-> "case", cons |-> cs.cons, kind |-> cs.p.kind, items |-> cs.p.items, end |-> cs.p.end,
-                  npre |-> npre, out |-> out, pulls |-> n,
+                  npre |-> npre, out |-> out, pulls |-> n, resumed |-> Observable(cs.p, n),
                   rest |-> SubSeq(cs.p.items, MinOf2(n, Len(cs.p.items)) + 1, Len(cs.p.items))]))
 =============================================================================
